@@ -277,8 +277,9 @@ def same_file(a, b):
 class Oracle:
     """Runs the real compiler on a placed construct and classifies what the diagnostic says."""
 
-    def __init__(self, chk: C.Check):
+    def __init__(self, chk: C.Check, scenarios):
         self.chk = chk
+        self.scenarios = scenarios
         self.root = tempfile.mkdtemp(prefix="bardic_c14_files_")
         self.outcomes = {}          # (kind@ctx, outcome) -> count
         self.by_scn = {}
@@ -313,7 +314,7 @@ class Oracle:
         return None, ""
 
     def one(self, scn, mode, rel, pos, kind):
-        entry, hosts = SCENARIOS[scn]
+        entry, hosts = self.scenarios[scn]
         files = {r: host_text(h) for r, h in hosts.items()}
         new, idx, ctx, alt = place(hosts[rel], pos, kind, rel)
         files[rel] = new
@@ -324,7 +325,9 @@ class Oracle:
         finally:
             if mode == "file":
                 self.write({rel: host_text(hosts[rel])})
-        label = kind if ctx == "body" else f"{kind}@{ctx}"
+        # the label names the mechanism: `pre` differs from `body` only in not being inside a passage, and
+        # @include / @start lines are handled before (or regardless of) any block structure
+        label = kind if ctx in ("body", "pre") or kind.startswith(("include-", "start-")) else f"{kind}@{ctx}"
         self.tried += 1
         frag = CONSTRUCTS[kind][2]
         if exc is None:
@@ -383,14 +386,17 @@ class Oracle:
         d = self.by_scn.setdefault(scn, {})
         d[outcome] = d.get(outcome, 0) + 1
         self.chk.count((scn, label, outcome, self.tried), outcome not in ("accepted", "other-diagnostic"))
+        if outcome == "correct" and self.tried % 97 == 0:
+            self.chk.sample({"kind": "construct", "scenario": scn, "construct@context": label, "outcome": outcome})
 
     def replay(self, scn, mode, rel, pos, kind, files, msg):
         return {"kind": "construct", "scenario": scn, "mode": mode, "file": rel, "position": pos,
                 "construct": kind, "files": files, "message": msg[:1500]}
 
-    def run_all(self, tier):
-        for scn, (entry, hosts) in SCENARIOS.items():
-            modes = ["file"] if len(hosts) > 1 else ["string", "parse-named", "file"]
+    def run_all(self):
+        for scn, (entry, hosts) in self.scenarios.items():
+            modes = ["file"] if len(hosts) > 1 or not scn.startswith(("plain", "blocks")) or "~" in scn \
+                else ["string", "parse-named", "file"]
             self.write({r: host_text(h) for r, h in hosts.items()})
             for mode in modes:
                 for rel, host in hosts.items():
@@ -405,5 +411,264 @@ class Oracle:
                 os.remove(os.path.join(self.root, rel))
 
 
+FILLER = {"pre": ["", "# note"], "body": ["", "# note", "Plain filler text."], "py": ["# note", "pass"],
+          "if": ["", "    # note", "    Filler in a branch."], "for": ["", "    # note", "    Filler in a loop."],
+          "join": ["", "    Filler in a choice block."]}
+
+
+def vary(host, rng, n):
+    """A variant of an annotated host: n filler lines (blank, comment, plain text) put at random positions,
+    each in the context of its position, so every construct position moves."""
+    h = list(host)
+    for _ in range(n):
+        pos = rng.randrange(len(h))
+        ctx = h[pos][0]
+        if ctx == "pre" and pos == 0 and rng.random() < 0.5:
+            continue
+        h.insert(pos, (ctx, rng.choice(FILLER[ctx])))
+    return h
+
+
+def scenarios_for(tier, rng):
+    scns = dict(SCENARIOS)
+    for v in range(1 if tier == "quick" else 10):
+        for name, (entry, hosts) in SCENARIOS.items():
+            if tier == "quick" and name == "plain":
+                continue
+            scns[f"{name}~{v}"] = (entry, {r: (vary(h, rng, rng.randint(2, 6))) for r, h in hosts.items()})
+    return scns
+
+
+# ----------------------------------------------------------------------------------------------
+# 1. the site table
+# ----------------------------------------------------------------------------------------------
+
+def site_table_step(chk: C.Check):
+    rows, problems = S.extract(C.REPO)
+    gen_dir = os.path.join(chk.scratch, "gen")
+    os.makedirs(gen_dir, exist_ok=True)
+    by_cls = {}
+    for r in rows:
+        by_cls[r["cls"]] = by_cls.get(r["cls"], 0) + 1
+    chk.notes["site_table"] = {
+        "rows": len(rows), "by_classification": by_cls,
+        "distinct_raise_sites": len({(r["file"], r["line"]) for r in rows}),
+        "format_error_sites": len({(r["file"], r["line"]) for r in rows if r["kind"] == "format_error"}),
+        "exemptions": sorted({f"{r['file']}:{r['function']}:{r['key']} [{r['cls']}] {r['why']}"
+                              for r in rows if r["cls"] in S.EXEMPT or r["cls"] == "SDead"}),
+        "not_raised_contexts": sorted({f"{r['file']}:{r['function']}:{r['key']} via {'; '.join(r['via'][:2])}"
+                                       for r in rows if r["cls"] == "SNotRaised"}),
+    }
+    for p in problems:
+        chk.report("site-extractor:" + S.slug(p, 6), "the site extractor could not read the source: " + p,
+                   {"kind": "site", "problem": p})
+    if not rows:
+        chk.report("site-extractor:empty", "no diagnostic site found in the parser sources", {"kind": "site"})
+        return
+    known = chk.known_signatures()
+    py_bad = [k for k, r in enumerate(rows) if not S.site_ok_py(r)]
+    known_idx = [k for k in py_bad if S.signature(rows[k]) in known]
+    S.emit_coq(rows, os.path.join(gen_dir, "Gen_C14_sites.v"), known_idx)
+    base = ["coqc", "-Q", C.COQ, "Bardic", "-Q", gen_dir, "C14Gen"]
+    rc, out = C.sh(base + [os.path.join(gen_dir, "Gen_C14_sites.v")], timeout=600, cwd=gen_dir)
+    m = re.search(r"=\s*\[(.*?)\]\s*:\s*list nat", out, re.S)
+    mb = re.search(r"=\s*(true|false)\s*:\s*bool", out)
+    if rc != 0 or not m or not mb:
+        chk.disagree("site-table-coqc", "the generated site table does not compile", {"log": out[-3000:]})
+        return
+    coq_bad = [int(t) for t in re.findall(r"\d+", m.group(1))]
+    if coq_bad != py_bad or (mb.group(1) == "true") != (not coq_bad):
+        chk.disagree("site-ok", "Diag.site_ok and the extractor's own predicate differ",
+                     {"coq": coq_bad, "python": py_bad})
+    chk.notes["site_table"]["forallb_site_ok_site_table"] = mb.group(1)
+    chk.notes["site_table"]["failing_rows"] = len(coq_bad)
+    for k in coq_bad:
+        r = rows[k]
+        what = (f"site {r['file']}:{r['line']} in {r['function']} ({r['key']}) is classified {r['cls']}"
+                f"{'%+d' % r['off'] if r['off'] and r['cls'] != 'SIndexPlus1' else ''}"
+                f"{'' if r['lines_full'] or r['kind'] == 'bare' else ' [lines is not the full list]'}"
+                f"{'' if r['has_file'] or r['kind'] == 'bare' else ' [no filename]'}"
+                f"{': ' + r['why'] if r['why'] else ''}; reached via {' | '.join(r['via'][:2]) or '-'}")
+        chk.report(S.signature(r), what, {"kind": "site", "row": {k2: v for k2, v in r.items()}})
+    # the obligation itself, over the table minus the rows that are recorded known findings
+    rc2, out2 = C.sh(base + [os.path.join(gen_dir, "Gen_C14_ok.v")], timeout=600, cwd=gen_dir)
+    closed = "Closed under the global context" in out2
+    chk.notes["site_table"]["obligation"] = {
+        "statement": "forallb site_ok checked_table = true  (checked_table = site_table minus "
+                     f"{len(known_idx)} row(s) recorded as known findings); finite domain: {len(rows)} rows",
+        "discharged": rc2 == 0 and closed}
+    unexplained = [k for k in coq_bad if k not in known_idx]
+    if rc2 != 0 and not unexplained:
+        chk.disagree("site-obligation", "the site-table obligation does not check although no failing row is left",
+                     {"log": out2[-3000:]})
+    if rc2 == 0 and (unexplained or not closed):
+        chk.disagree("site-obligation", "the site-table obligation checked although failing rows are left, or it "
+                     "depends on axioms", {"log": out2[-3000:]})
+    return rows
+
+
+# ----------------------------------------------------------------------------------------------
+# 3. correspondence of Compiler/Diag.v with the real format_error
+# ----------------------------------------------------------------------------------------------
+
+TEXTS = ["", "text", ":: Start", "   3 | x", "^^^", "    --- from a ---", "  lead", "trail  ", "a | b", "{x",
+         "         --- from inc.bard ---", "     ^^", "@if x:", "  12 | ", "Hint: no"]
+FILES = ["main.bard", "inc.bard", "sub/deep.bard", "", "/abs/a.bard"]
+CTX_LINE = re.compile(r"^  ( *-?\d+) \| (.*)$")
+
+
+def gen_fcase(rng):
+    n = rng.choice([0, 1, 2, 3, 4, 5, 6, 8])
+    lines = [rng.choice(TEXTS) for _ in range(n)]
+    ln = rng.randint(-n - 3, n + 3)
+    k = rng.random()
+    if k < 0.25:
+        lm = None
+    elif k < 0.32:
+        lm = []
+    else:
+        m = max(0, n + rng.choice([0, 0, 0, 0, -1, 1, -2, 2]))
+        lm, f, num = [], rng.choice(FILES), rng.randint(0, 3)
+        for _ in range(m):
+            if rng.random() < 0.3:
+                f, num = rng.choice(FILES), rng.randint(0, 12)
+            lm.append((f, num))
+            num += 1
+    fname = rng.choice([None, None, "", "main.bard", "dir/story.bard"])
+    return {"line_num": ln, "lines": lines, "line_map": lm, "filename": fname,
+            "pointer_col": rng.randint(0, 3), "pointer_length": rng.choice([None, 1, 4]),
+            "suggestion": rng.choice([None, "a hint"])}
+
+
+def run_fcase(case):
+    """Real format_error -> (file, line, context) read back from the text; None for IndexError."""
+    from bardic.compiler.parsing.errors import format_error, SourceLocation
+    lm = None if case["line_map"] is None else [SourceLocation(f, n) for f, n in case["line_map"]]
+    try:
+        msg = format_error("E", case["line_num"], list(case["lines"]), "M", case["pointer_col"],
+                           case["pointer_length"], case["suggestion"], case["filename"], lm)
+    except IndexError:
+        return None
+    out = msg.split("\n")
+    assert out[0] == "✗ E", out[:2]
+    k, file = 1, None
+    if out[k].startswith(" in "):
+        file = out[k][4:]
+        k += 1
+    m = re.match(r"^ on line (-?\d+):$", out[k])
+    assert m and out[k + 1] == "  M" and out[k + 2] == "", out[:6]
+    line = int(m.group(1))
+    k += 3
+    ctx = []
+    while out[k] != "":
+        t = out[k]
+        mc = CTX_LINE.match(t)
+        if mc:
+            ctx.append(["line", int(mc.group(1)), mc.group(2), False])
+        elif t.startswith("         --- from ") and t.endswith(" ---"):
+            ctx.append(["boundary", t[len("         --- from "):-4]])
+        elif t.strip() and set(t.strip()) == {"^"} and ctx and ctx[-1][0] == "line":
+            ctx[-1][3] = True
+        else:
+            raise AssertionError("unreadable context line: " + repr(t))
+        k += 1
+    return file, line, ctx
+
+
+def fcase_term(case, res):
+    def item(c):
+        if c[0] == "line":
+            return f"(CLine {coq_Z(c[1])} {coq_str(c[2])} {C.coq_bool(c[3])})"
+        return f"(CBoundary {coq_str(c[1])})"
+
+    lm = coq_opt(case["line_map"], lambda m: coq_list(f"({coq_str(f)}, {coq_Z(n)})" for f, n in m))
+    exp = "None" if res is None else \
+        f"(Some ({coq_opt(res[0], coq_str)}, {coq_Z(res[1])}, {coq_list(item(c) for c in res[2])}))"
+    return (f"({coq_Z(case['line_num'])}, {coq_list(coq_str(l) for l in case['lines'])}, "
+            f"{coq_opt(case['filename'], coq_str)}, {lm}, {exp})")
+
+
 def run(tier: str, seed: int) -> int:
-    raise NotImplementedError
+    chk = C.Check("C14", tier, seed, "proof")
+    props = C.coq_gate(chk)
+    C.use_repo()
+    rng = chk.rng
+
+    # ---- 1. site table ----
+    site_table_step(chk)
+
+    # ---- 2. behavioural oracle ----
+    scns = scenarios_for(tier, rng)
+    orc = Oracle(chk, scns)
+    try:
+        orc.run_all()
+    finally:
+        orc.close()
+    per_kind = {}
+    for (label, outcome), n in sorted(orc.outcomes.items()):
+        per_kind.setdefault(label, {})[outcome] = n
+    totals = {}
+    for d in per_kind.values():
+        for o, n in d.items():
+            totals[o] = totals.get(o, 0) + n
+    chk.notes["oracle"] = {
+        "constructs": len(CONSTRUCTS), "scenarios": {k: {r: len(h) for r, h in v[1].items()} for k, v in scns.items()},
+        "placements_tried": orc.tried, "outcomes": totals, "per_scenario": orc.by_scn,
+        "per_construct_and_context": {k: v for k, v in per_kind.items()
+                                      if set(v) - {"accepted", "other-diagnostic"}},
+        "never_diagnosed_there": sorted(k for k, v in per_kind.items() if not set(v) - {"accepted", "other-diagnostic"}),
+    }
+
+    # ---- 3. correspondence ----
+    n_cases = 600 if tier == "quick" else 6000
+    terms, cases, dist = [], [], {"index_error": 0, "with_map": 0, "no_map": 0, "pointer_shown": 0, "boundary_shown": 0}
+    for i in range(n_cases):
+        case = gen_fcase(rng)
+        try:
+            res = run_fcase(case)
+        except AssertionError as e:
+            chk.disagree("format-error-text", f"the text returned by format_error could not be read back: {e}",
+                         {"case": case})
+            continue
+        terms.append(fcase_term(case, res))
+        cases.append(case)
+        if res is None:
+            dist["index_error"] += 1
+        else:
+            dist["with_map" if case["line_map"] else "no_map"] += 1
+            dist["pointer_shown"] += any(c[0] == "line" and c[3] for c in res[2])
+            dist["boundary_shown"] += any(c[0] == "boundary" for c in res[2])
+        if i < 2:
+            chk.sample({"kind": "format_error", "case": case, "read_back": res})
+    bad, shown, log = C.run_coq_cases(chk.scratch, HEADER, terms, "fcase", "fcase_bad", show_fn="fcase_show")
+    for b in bad:
+        if isinstance(b, int):
+            chk.disagree("format-error", "Compiler/Diag.v and errors.py:format_error differ on a case",
+                         {"case": cases[b], "implementation": run_fcase(cases[b]), "model_says": shown.get(b)})
+        else:
+            chk.disagree("format-error-coqc", "case shard failed to evaluate", {"log": log})
+    chk.cov["programs"] = orc.tried + len(terms)
+    chk.cov["disagreements_checked"] = len(terms)
+    chk.cov["disagreements_found"] = len(bad)
+    chk.notes["format_error_cases"] = dist
+    chk.cov["rule"] = ("oracle cases: (scenario, entry mode, file, insertion position, construct kind); non-trivial = the "
+                       "compiler produced the diagnostic of that construct (accepted / other diagnostic are trivial); "
+                       "every case is distinct. correspondence cases: random (line_num, lines, filename, line_map) "
+                       "through the real format_error, location and context block compared inside Coq")
+    chk.assumptions = [
+        "line_map is a provenance map for lines (entry i = file and 0-based line of concatenated line i): "
+        "C13's conclusion, a hypothesis of diag_names_the_authors_file_and_line",
+        "that the index a site holds is the index of the malformed construct is carried by the behavioural "
+        "oracle (construct kinds x positions x contexts listed in the evidence), not by a theorem",
+        "SSliceIndex rows (base + offset in a block collected line by line from `base`) are index rows "
+        "provided the block is contiguous; exercised by the constructs placed in `-> @join` choice blocks",
+        "the site extractor's exemptions (listed with reasons under site_table.exemptions) and its reading of "
+        "the guard `lines is not None and line_num > 0` are trusted",
+    ]
+    return chk.finish(props, C.BASE_TRUST + [
+        "harness/c14_sites.py: the ast-based classification of every raise site (fail closed: unknown shapes "
+        "fail site_ok); entry points parse / parse_file / resolve_includes",
+        "modelled: bardic/compiler/parsing/errors.py:format_error (header file/line, context block, pointer line, "
+        "boundary annotations); message/suggestion/pointer geometry are not modelled"],
+        "make -C /verif/coq && coqc -Q /verif/coq Bardic /verif/coq/Props/C14.v && "
+        "coqc -Q /verif/coq Bardic -Q <scratch>/gen C14Gen <scratch>/gen/Gen_C14_ok.v")
